@@ -13,6 +13,7 @@ case "$PROP" in
   C38) ENGINE=sim_pb;   SET=plain; DUAL=1 ;;
   C07) ENGINE=sim_iter; SET=plain ;;
   C32) ENGINE=sim_generator; SET=plain ;;
+  C34) ENGINE=sim_serialize; SET=plain; DUAL=1 ;;
   *) echo "HARNESS-ERROR: no engine for property $PROP" >&2; exit 2 ;;
 esac
 TDIR="$ROOT/target/$SET"
